@@ -3,6 +3,7 @@ package main
 import (
 	"fmt"
 	"strings"
+	"time"
 
 	. "verifharness/common"
 )
@@ -699,6 +700,12 @@ func edgeCorpus() (where, query []Replay) {
 		where = append(where, Replay{Kind: "where", Stream: "edge-corpus", Text: t, Events: preEvs})
 	}
 	query = append(query, Replay{Kind: "query", Text: `fields:a = "" OR fields:ab = 1`, Events: preEvs})
+	// a request under the id of a cursor the server keeps for ANOTHER query (and its position): the new query's filter must be applied
+	{
+		evs := []Ev{{Ts: 1, Msg: "alpha #0"}, {Ts: 2, Msg: "beta #1"}, {Ts: 3, Msg: "alpha #2"}, {Ts: 4, Msg: "beta #3"}, {Ts: 5, Msg: "alpha #4"}}
+		query = append(query, Replay{Kind: "query", Text: `msg prefix "beta"`, Events: evs, Stale: true},
+			Replay{Kind: "query", Text: `NOT msg contains "#2" AND ts > 2`, Events: evs, Stale: true})
+	}
 	// ---- sizes of field items: the length byte at 127 / 128 / 255, many fields
 	rep := func(c string, n int) string { return strings.Repeat(c, n) }
 	name255 := "n" + rep("x", 254)
@@ -742,4 +749,42 @@ func edgeCorpus() (where, query []Replay) {
 		Replay{Kind: "query", Text: `NOT msg = "zero"`, Events: tsEvs, Lim: 5},
 		Replay{Kind: "query", Text: `NOT msg = "zero"`, Events: tsEvs, Tail: 5, Twice: true})
 	return where, query
+}
+
+// ampmCases: ts comparisons with 12-hour literals (hours 01..11 PM, 12 AM, 12 PM) in both forms of the list of datetime.go
+// ("YYYY-MM-DD hh:mm:ss P", "D/M/YYYY hh:mm:ss P"); the instant a literal denotes is computed here (UTC: the harness pins
+// time.Local), the events stand between the 12-hour reading and the reading that drops AM/PM, and on both sides of them
+func ampmCases() []Replay {
+	var out []Replay
+	day := time.Date(2019, 3, 11, 0, 0, 0, 0, time.UTC)
+	type lit struct {
+		h12  int
+		pm   bool
+		h24  int
+		mins int
+	}
+	lits := []lit{{2, true, 14, 10}, {1, true, 13, 0}, {11, true, 23, 59}, {12, false, 0, 30}, {12, true, 12, 5}, {9, false, 9, 15}, {7, true, 19, 45}}
+	for i, l := range lits {
+		ap := "AM"
+		if l.pm {
+			ap = "PM"
+		}
+		want := day.Add(time.Duration(l.h24)*time.Hour + time.Duration(l.mins)*time.Minute).UnixNano()
+		wrong := day.Add(time.Duration(l.h12)*time.Hour + time.Duration(l.mins)*time.Minute).UnixNano() // AM/PM dropped
+		texts := []string{fmt.Sprintf("2019-03-11 %02d:%02d:00 %s", l.h12, l.mins, ap), fmt.Sprintf("11/3/2019 %02d:%02d:00 %s", l.h12, l.mins, ap)}
+		lo, hi := want, wrong
+		if lo > hi {
+			lo, hi = hi, lo
+		}
+		evs := []Ev{{Ts: lo - 60e9, Msg: "before both"}, {Ts: lo, Msg: "at the lower"}, {Ts: lo + (hi-lo)/2, Msg: "between"}, {Ts: hi, Msg: "at the upper"}, {Ts: hi + 60e9, Msg: "after both"}, {Ts: want, Msg: "at the instant"}}
+		for j, t := range texts {
+			op := []string{">=", "<", ">", "<="}[(i+j)%4]
+			text := fmt.Sprintf("ts %s '%s'", op, t)
+			if (i+j)%3 == 0 {
+				text = fmt.Sprintf("NOT ts %s \"%s\" OR msg = \"between\"", op, t)
+			}
+			out = append(out, Replay{Kind: "where", Stream: "ampm", Text: text, Events: evs, FixedLits: map[string]int64{t: want}})
+		}
+	}
+	return out
 }
